@@ -19,7 +19,7 @@ CLAIMED = {
     ),
     "C15": (
         "exploration",
-        "Seeded deterministic simulation of real nodes in four shapes: heterogeneous meshes (2-4 nodes, peer timeouts from {0,1,59,60,119,120,121,300,65535} x keepalive {none,1,30,600,70000}) observed for 3x the largest timeout after warm-up; silence injection at an instant drawn from a 200 s window; a two-node sweep over advertised timeout values (boundary values in quick, every value 0..65535 once in thorough); 48 h back-off runs with 1-2 unreachable configured peers and an optional phase of injected send errors. Oracles: at every announcement scheduling, interval == 1 or interval < min advertised timeout of the current peers (the timeout each peer entry's incarnation was configured with, i.e. advertises - not the value the node stored); no timeout removal in a stable delivering mesh (all timeouts >= 3 s), also after one node came back (crash or clean stop, 0-3 s down, 40 % of the mesh runs) with another timeout and the mesh settled again (all pairs connected, no handshake pending or lingering, nothing added or removed for 5 s, every node scheduled an announcement since it last added a peer); a silenced peer is removed, with its routes, at the first housekeeping after its expiry and re-dialled, never earlier; dial attempts to unreachable configured peers never stop and are at most 3600 s (+2 s) apart once faults have stopped; node start and every step must not unwind (overflow checks on).",
+        "Seeded deterministic simulation of real nodes in four shapes: heterogeneous meshes (2-4 nodes, peer timeouts from {0,1,59,60,119,120,121,300,65535} x keepalive {none,1,30,600,70000}) observed for 3x the largest timeout after warm-up; silence injection at an instant drawn from a 200 s window (total - optionally with the captured first handshake message of the silent node replayed every 20-100 s - or selective: the node's announcements, keepalives, rotation and handshake messages are lost while its payload keeps arriving; in tun meshes and in learning tap meshes with an address learned behind the node); a two-node sweep over advertised timeout values (boundary values in quick, every value 0..65535 once in thorough); 48 h back-off runs with 1-2 unreachable configured peers and an optional phase of injected send errors. Oracles: at every announcement scheduling, interval == 1 or interval < min advertised timeout of the current peers (the timeout each peer entry's incarnation was configured with, i.e. advertises - not the value the node stored); no timeout removal in a stable delivering mesh (all timeouts >= 3 s), also after one node came back (crash or clean stop, 0-3 s down, 40 % of the mesh runs) with another timeout and the mesh settled again (all pairs connected, no handshake pending or lingering, nothing added or removed for 5 s, every node scheduled an announcement since it last added a peer); a silenced peer is removed, with its routes, at the first housekeeping after its expiry and re-dialled, never earlier; dial attempts to unreachable configured peers never stop and are at most 3600 s (+2 s) apart once faults have stopped; node start and every step must not unwind (overflow checks on).",
         "Trusted: simulator seams and the 1 s tick model (housekeeping condition evaluated after every event, as in run()). The quick tier caps the observation span of heterogeneous meshes at 3 x 1200 s; meshes containing a timeout < 3 s are observed for 30 s and only the scheduling clause is checked there.",
         "DESIGN.md section 8, C15",
         "seeded search over configurations x silence instants x send-error phases; bounded liveness after faults stop",
@@ -33,7 +33,7 @@ CLAIMED = {
     ),
     "C14": (
         "exploration",
-        "Meshes: random connected labelled bootstrap graphs on 2-6 nodes (thorough: up to 8) with per-edge dial orientation, address-filtering NAT per node, nodes behind translating NATs with port forwards (seen and reached under a public address only), 0-9 advertised unreachable addresses per node, staggered starts, 15 % plain meshes, reliable network. Oracle: every pair mutually connected within (diameter+2) announcement intervals of 90 s + 60 s (10 intervals with NAT) and still 400 s later. Self-dial: node 0 behind a translating NAT; its datagrams to its public address come back with source in {own socket, public address, third address}; it dials the address because it is configured, advertised, or only listed by peers; alone and inside a 2-3 node mesh. Invariant after every step: no node lists itself as a peer (by node id or by an address that reaches it); an address listed under the node's identity is adopted at once, must be adopted when peers reach the node through it, and is not dialled while adopted.",
+        "Meshes: random connected labelled bootstrap graphs on 2-6 nodes (thorough: up to 8) with per-edge dial orientation, address-filtering NAT per node, nodes behind translating NATs with port forwards (seen and reached under a public address only), 0-9 advertised unreachable addresses per node, staggered starts (in 15 % of the runs one node comes up 250-650 s late, after the handshakes waiting for it have given up; in 6 % one node crashes 2-60 ms after its start and comes back 0.3-4 s later), 15 % plain meshes, reliable network. Oracle: every pair mutually connected within (diameter+2) announcement intervals of 90 s + 60 s (10 intervals with NAT) and still 400 s later. Self-dial: node 0 behind a translating NAT; its datagrams to its public address come back with source in {own socket, public address, third address}; it dials the address because it is configured, advertised, or only listed by peers; alone and inside a 2-3 node mesh. Invariant after every step: no node lists itself as a peer (by node id or by an address that reaches it); an address listed under the node's identity is adopted at once, must be adopted when peers reach the node through it, and is not dialled while adopted.",
         "Trusted: simulator seams, the NAT models (address filtering with 300 s mappings as in the in-tree MockSocket; translating NAT with port forward; internal addresses unroutable from outside). Graph space is sampled, not enumerated.",
         "DESIGN.md section 8, C14",
         "seeded search over bootstrap graphs x NAT kinds x hair-pin source addresses; bounded liveness + invariant",
@@ -82,21 +82,21 @@ CLAIMED = {
     ),
     "C02": (
         "exploration",
-        "Node level: 2-3 real tun nodes with cipher lists from {default, aes128, aes256, chacha20, plain, plain+aes256, chacha20+aes128} (plain on none / one / both ends), a never-answering configured peer at node 0; 10-60 marked frames per run, the first of length (i mod 301) so that every length 0..=300 occurs once per 301 runs, others up to 9000 bytes; after each frame one sealed datagram on the wire (data or node info) is tampered with: one bit flipped in key id / counter / ciphertext / tag, truncation at any length, reflection to its sender, presentation on another connection of a 3-node mesh with matching source address, extension; unsealed payload from the address of a pending handshake; datagrams sealed by the outsider under guessable keys (all-zero, all-ones) for every cipher, key slot and nonce half; in 30 % of the runs a frame is sealed while the path is cut, its sender crashes and comes back, and the held-back datagram of the previous connection arrives after the new handshake; in 15 % of the runs the last node is told to dial an address that leads back to itself (hair-pin with crosswise source addresses) and reads packets for its own address. Oracles: every interface write is byte-identical to the frame read at the sending peer and stems from an unmodified copy of its datagram; a tampered datagram causes no write, no state change, no reply; no node ever writes a frame for a datagram it sealed itself; two ticks later untouched frames are delivered exactly once on every connection; the complete wire capture of pairs that did not both enable plain contains no 16-byte window of payload or of any node id.",
+        "Node level: 2-3 real tun nodes with cipher lists from {default, aes128, aes256, chacha20, plain, plain+aes256, chacha20+aes128} (plain on none / one / both ends), a never-answering configured peer at node 0; 10-60 marked frames per run, the first of length (i mod 301) so that every length 0..=300 occurs once per 301 runs, others up to 9000 bytes; after each frame one sealed datagram on the wire (data or node info) is tampered with: one bit flipped in key id / counter / ciphertext / tag, truncation at any length, reflection to its sender, presentation on another connection of a 3-node mesh with matching source address, extension; unsealed payload from the address of a pending handshake; datagrams sealed by the outsider under guessable keys (all-zero, all-ones) for every cipher, key slot and nonce half; in 30 % of the runs a frame is sealed while the path is cut, its sender crashes and comes back, and the held-back datagram of the previous connection arrives after the new handshake; in 15 % of the runs the last node is told to dial an address that leads back to itself (hair-pin with crosswise source addresses) and reads packets for its own address; send errors (EAGAIN, ENETUNREACH, EPERM, EINTR, short write) in a quarter of the runs; Ethernet (tap) meshes in 30 % of the runs (an Ethernet dissector accepts any 14 bytes, so a mangled payload would be written rather than dropped). Oracles: every interface write is byte-identical to the frame read at the sending peer and stems from an unmodified copy of its datagram; a tampered datagram causes no write, no state change, no reply; no node ever writes a frame for a datagram it sealed itself; two ticks later untouched frames are delivered exactly once on every connection; the complete wire capture of pairs that did not both enable plain contains no 16-byte window of payload or of any node id.",
         "Trusted: simulator seams and the harness' attribution of wire datagrams (origin genuine / tampered, cause interface read). Bit positions and truncation lengths are sampled per region, not enumerated per datagram; encoded claims are not searched for separately (they travel in the same sealed node-info message as the node id).",
         "DESIGN.md section 8, C02",
         "seeded traffic with one tampering per frame; attribution of every interface write + wire scan",
     ),
     "C03": (
         "exploration",
-        "Pair level (L1): an established pair of real PeerCrypto objects for each cipher. A seed-indexed sweep enumerates all schedules of length 5 (thorough: 7) over {seal next, deliver datagram 1..5 (again), tick receiver}; random histories of 20-400 steps add sender ticks, delivery/loss of rotation messages and fast-forwards across key rotations. Oracle computed from the recorded history only (no access to the window variables): a genuine datagram with counter c under key generation g is rejected iff something with counter >= c was accepted under g before the receiver's previous tick, accepted otherwise while the receiver still holds g under that key id, and opens to the sealed bytes. Both directions of error are reported (replay hole, loss of in-window traffic). Node level (every tenth run after the sweep): two real nodes, every captured data datagram is replayed 0-5 housekeeping rounds after its first delivery, in 30 % of the cases after the captured first handshake message was replayed to the receiver (which opens a handshake next to the established connection); a replay arriving two or more housekeeping rounds of the receiver after the first delivery must not be written to the interface again.",
+        "Pair level (L1): an established pair of real PeerCrypto objects for each cipher. A seed-indexed sweep enumerates all schedules of length 5 (thorough: 7) over {seal next, deliver datagram 1..5 (again), tick receiver}; random histories of 20-400 steps add sender ticks, delivery/loss of rotation messages and fast-forwards across key rotations. Oracle computed from the recorded history only (no access to the window variables): a genuine datagram with counter c under key generation g is rejected iff something with counter >= c was accepted under g before the receiver's previous tick, accepted otherwise while the receiver still holds g under that key id, and opens to the sealed bytes. Both directions of error are reported (replay hole, loss of in-window traffic). Node level (every tenth run after the sweep): two real nodes, every captured data datagram is replayed 0-5 housekeeping rounds after its first delivery, in 30 % of the cases after the captured first handshake message was replayed to the receiver (which opens a handshake next to the established connection); a replay arriving two or more housekeeping rounds of the receiver after the first delivery must not be written to the interface again; in 30 % of these runs a node has a housekeeping task that fails every round (missing beacon file); in 20 % the connection is half-open at first (the initiator's third handshake message is lost for 10-90 s while it already sends payload).",
         "Trusted: the L1 driver (sim/src/pair.rs replicates the node's per-address routing of handshake objects), Seal/KeyRotated probes for attributing datagrams to key generations. A 'tick' is one call of every_second; the node-level replay of captured data datagrams k rounds later is part of C09.",
         "DESIGN.md section 8, C03",
         "seed-indexed exhaustive sweep of short schedules + random histories; history oracle",
     ),
     "C04": (
         "exploration",
-        "Pair level. Two thirds of the runs: whole connection lifetimes of a real PeerCrypto pair - handshake by one side or both at once with reordered/duplicated datagrams, 300-1500 ticks per end (thorough: up to 4000; 120 ticks per rotation cycle), rotation messages lost/duplicated/reordered/delayed, a probe sealed in both directions after every step, nonce starts shaped to sit below carry boundaries of 1-6 bytes, the counter placed 1-40 seals below the 56 bit limit with ticks of either end between the seals that cross it. Oracle over the seal log (every encrypt call): no (key, nonce) pair twice, strictly increasing per (end, key), different top bytes at the two ends of a key, every key starts exactly at the generator's bytes and its first seal is start+1, past the 56 bit limit the peer opens nothing and below it everything. One third of the runs walk the two-party handshake schedules of C05 (exhaustive sweep of length 4 / 6, then random schedules with forced re-dials) under the same seal-log oracles plus: the two ends of one key install it with opposite nonce halves. One lifetime in fifty is longer than 128 rotation cycles.",
+        "Pair level. Two thirds of the runs: whole connection lifetimes of a real PeerCrypto pair - handshake by one side or both at once with reordered/duplicated datagrams, 300-1500 ticks per end (thorough: up to 4000; 120 ticks per rotation cycle), rotation messages lost/duplicated/reordered/delayed, a probe sealed in both directions after every step, nonce starts shaped to sit below carry boundaries of 1-6 bytes, the counter placed 1-40 seals below the 56 bit limit with ticks of either end between the seals that cross it. Oracle over the seal log (every encrypt call): no (key, nonce) pair twice, strictly increasing per (end, key), different top bytes at the two ends of a key, every key starts exactly at the generator's bytes and its first seal is start+1, past the 56 bit limit the peer opens nothing and below it everything. One third of the runs walk the two-party handshake schedules of C05 (exhaustive sweep of length 4 / 6, then random schedules with forced re-dials) under the same seal-log oracles plus: the two ends of one key install it with opposite nonce halves. After the sweeps every twentieth run is a node-level run: 2-3 real nodes exchange packets while their sockets refuse datagrams now and then (EAGAIN, ENETUNREACH, EPERM, EINTR, short write); every seal of every node must be unique and increasing per key. One lifetime in fifty is longer than 128 rotation cycles.",
         "Trusted: the Seal/NonceStart probes (src/crypto/core.rs, guarded) and the key fingerprint (AEAD tag of the empty message under the reserved all-ones nonce). Unpredictability is checked as 'equals what the generator handed out', not statistically.",
         "DESIGN.md section 8, C04",
         "seeded lifetimes with shaped nonce starts and counter placement; global seal-log uniqueness",
@@ -110,21 +110,21 @@ CLAIMED = {
     ),
     "C07": (
         "exploration",
-        "Pair level. A seed-indexed sweep enumerates all schedules of length 6 (thorough: 8) over {rotation cycle at A, cycle at B, deliver the oldest / newest in-flight rotation message, deliver a duplicate, drop} with a probe in both directions after every operation. Random part: an established real PeerCrypto pair (real rotation state, real key slots); 300-1500 ticks per end (thorough: up to 4000) at independent rates, rotation messages lost (10-60 %), duplicated, reordered, delayed by up to 600 ticks during a fault phase covering 0-75 % of the run. After every step each end seals a probe and the other must open it to the same bytes; in the fault-free suffix (after 4 intervals of recovery) the sealing key of each direction changes at least once per window of 2 rotation intervals + 1 tick.",
+        "Pair level. A seed-indexed sweep enumerates all schedules of length 6 (thorough: 8) over {rotation cycle at A, cycle at B, deliver the oldest / newest in-flight rotation message, deliver a duplicate, drop} with a probe in both directions after every operation. Random part: an established real PeerCrypto pair (real rotation state, real key slots); 300-1500 ticks per end (thorough: up to 4000) at independent rates, rotation messages lost (10-60 %), duplicated, reordered, delayed by up to 600 ticks during a fault phase covering 0-75 % of the run. After every step each end seals a probe and the other must open it to the same bytes; in the fault-free suffix (after 4 intervals of recovery) the sealing key of each direction changes at least once per window of 2 rotation intervals + 1 tick. After the sweep every fiftieth run is a node-level run: the connection of two real nodes is replaced by a second handshake (the dialling end crashes and comes back on the same address while the other end still holds the old connection); once both ends have added each other again, probes in both directions every 1-10 s for up to 12 minutes must all be delivered.",
         "Trusted: L1 driver. The exhaustive enumeration reaches depth 6 / 8 instead of 12; beyond that seeded schedules over 2-30 rotation cycles, and one lifetime in fifty over more than 128 cycles (message ids beyond 255).",
         "DESIGN.md section 8, C07",
         "seeded rotation schedules with message faults; probe-after-every-step invariant + bounded freshness",
     ),
     "C16": (
         "exploration",
-        "Node level, the part of the property that meets the network: 1-6 real nodes (thorough: up to 24, beyond the 20 peer limit of an announcement) with 0-9 advertised addresses per family, claims of every address length the configuration can express with any prefix 0-255, timeouts up to 65535; plain meshes in 30 % of the runs; a corrupting network (bit flips, truncation, duplicates); an outside sender presenting truncations, single-byte substitutions at tag/length positions, random parts with boundary lengths behind a genuine key hash and random strings up to 2 KiB to the handshake decoder; and an alien-version peer (trusted key, real handshake/envelope code, OWN node-info encoder and decoder written from the format) that announces claims of every address length 0-16 and prefix 0-255, 0-9 addresses per family and unknown parts (tags 6-255, 0-700 bytes) at every position. Oracles: no unwind; real node -> real node: decoded claims and timeout equal the sender's, held addresses are the seen address followed by the sender's stable own addresses in normal form (7 per family, IPv6 first); real node -> reference decoder: same, at most 20 peer entries, each in normal form; reference encoder -> real node: decoded claims, timeout and addresses equal what the alien encoded, the alien stays connected at every step and packets for its claim reach it byte-identical; every message the reference encoder writes is also given directly to the real decoder and must come back exactly; every real node's own announcement goes through real encoder -> reference decoder and real decoder (sampled at 10 % of its ticks); a well-formed alien that completed its handshake on an unaltering network must be listed by the node within 30 s. A run that does not terminate within 150 s of wall-clock time is reported as a hang with its seed.",
+        "Node level, the part of the property that meets the network: 1-6 real nodes (thorough: up to 24, beyond the 20 peer limit of an announcement) with 0-9 advertised addresses per family, claims of every address length the configuration can express with any prefix 0-255, timeouts up to 65535; plain meshes in 30 % of the runs; a corrupting network (bit flips, truncation, duplicates); an outside sender presenting truncations, single-byte substitutions at tag/length positions, random parts with boundary lengths behind a genuine key hash and random strings up to 2 KiB to the handshake decoder; and an alien-version peer (trusted key, real handshake/envelope code, OWN node-info encoder and decoder written from the format) that announces claims of every address length 0-16 and prefix 0-255, 0-9 addresses per family and unknown parts (tags 6-255, 0-700 bytes) at every position, 0-4 peer entries with 0-9 addresses per family (entries without addresses and without id included), cipher lists of 5-12 entries in its handshake, rotation messages with keys of any length 0-255. Oracles: no unwind; real node -> real node: decoded claims and timeout equal the sender's, held addresses are the seen address followed by the sender's stable own addresses in normal form (7 per family, IPv6 first); real node -> reference decoder: same, at most 20 peer entries, each in normal form; reference encoder -> real node: decoded claims, timeout and addresses equal what the alien encoded, the alien stays connected at every step and packets for its claim reach it byte-identical; every message the reference encoder writes is also given directly to the real decoder and must come back exactly; every real node's own announcement goes through real encoder -> reference decoder and real decoder (sampled at 10 % of its ticks); a well-formed alien that completed its handshake on an unaltering network must be listed by the node within 30 s. A run that does not terminate within 150 s of wall-clock time is reported as a hang with its seed.",
         "Not covered by simulation and not claimed: the pure-function part of the property (round trip over all generated message shapes, every truncation and substitution of every encoding, the rotation-message decoder on arbitrary bytes, which sits behind AEAD and is only reached by genuine and alien-peer messages). Trusted: the reference codec in sim/src/c16.rs. Own addresses a node adopted from peers come and go, so only the stable part (configured + socket address) is compared exactly.",
         "DESIGN.md section 8, C16",
         "seeded meshes with corrupting network, decoder-input adversary and an alien-version peer with an independent codec",
     ),
     "C17": (
         "exploration",
-        "7/8 of the runs drive the real BeaconSerializer over the simulated clock and real files: 1-4 beacons for address lists of 0-8 IPv4 / 0-4 IPv6 entries, writer clocks inside, at the edge of and beyond the reader's age limit (50 as in the node, 0, 65535, around 32768, any), 200 passwords incl. empty, reader hour following the run index (all 65536 stamps over a thorough batch) or next to the 16 bit wrap; in 1 % of the runs the first beacon is written at the hour stamp (of all 65536) that gives the shortest text, i.e. the most leading zero bytes in the masked data; text with separators inside beacons and stray / partial / overlapping markers, 4-8 k character chunks between markers; decoding directly or through a file that is torn at any byte, garbage or missing. 1/8 of the runs are 2-5 real nodes that know each other only through beacon files maintained by a publisher actor, with clocks anywhere in the hour cycle, skews up to +-160 h and three passwords. Oracles: clean texts yield exactly the concatenated address lists (IPv4 first) of the beacons with the reader's password and circular hour distance <= limit; torn files a whole-beacon prefix; with stray markers every genuine beacon is still found in order; no unwind on any text; every BeaconLoaded probe of a node equals the reference over its file; nodes with a common password and clocks within 48 h meet.",
+        "7/8 of the runs drive the real BeaconSerializer over the simulated clock and real files: 1-4 beacons for address lists of 0-8 IPv4 / 0-4 IPv6 entries, writer clocks inside, at the edge of and beyond the reader's age limit (50 as in the node, 0, 65535, around 32768, any), 200 passwords incl. empty, reader hour following the run index (all 65536 stamps over a thorough batch) or next to the 16 bit wrap; in 1 % of the runs the first beacon is written at the hour stamp (of all 65536) that gives the shortest text, i.e. the most leading zero bytes in the masked data; text with separators inside beacons and stray / partial / overlapping markers, 4-8 k character chunks and bursts of 20-60 short random chunks between markers; decoding directly, through a command (`cat` of a file, as beacon_load = '|cmd' does) or through a file that is torn at any byte, garbage or missing. 1/8 of the runs are 2-5 real nodes that know each other only through beacon files maintained by a publisher actor, with clocks anywhere in the hour cycle, skews up to +-160 h and three passwords. Oracles: clean texts yield exactly the concatenated address lists (IPv4 first) of the beacons with the reader's password and circular hour distance <= limit; torn files a whole-beacon prefix; with stray markers every genuine beacon is still found in order; no unwind on any text; every BeaconLoaded probe of a node equals the reference over its file; nodes with a common password and clocks within 48 h meet.",
         "Trusted: simulator clock seam, /dev/shm as the file system, the publisher actor. Texts whose only marker occurrences are those of genuine beacons are compared exactly; the one-byte beacon checksum makes a random chunk pass with probability 1/256, so texts with deliberately placed stray markers are checked for containment only.",
         "DESIGN.md section 8, C17",
         "seeded beacons x clocks x texts x file faults against a reference; beacon-only discovery between real nodes",
